@@ -3,11 +3,12 @@
 use crate::backend::Disk;
 use crate::crash::{obs_vs_model, writer_suffix};
 use crate::hc;
-use crate::model::ListModel;
+use crate::model::{sel, ListModel};
 use crate::ops::*;
 use crate::props::c01::{alphabet_op, seq_at, seq_count, ALPHABET};
 use crate::runner::*;
 use proptest::prelude::*;
+use serde::{Deserialize, Serialize};
 use serde_json::{json, Value};
 
 pub fn fault_history_strategy(max: usize) -> impl Strategy<Value = Vec<Op>> {
@@ -31,11 +32,16 @@ struct FaultRun {
 /// Run the history with operation `fault_at` failing (or none when None).
 fn run_once(ops: &[Op], fault_at: Option<u64>, local: &mut Local) -> Result<FaultRun, Failure> {
     let disk = Disk::journaled();
-    let mut sim = WSim::create(&disk, ObsPolicy::Windowed)?;
+    let sim = WSim::create(&disk, ObsPolicy::Windowed)?;
     let k0 = disk.ops();
     if let Some(k) = fault_at {
         disk.set_fault(k as i64);
     }
+    drive(&disk, sim, ops, fault_at, k0, local)
+}
+
+/// Run `ops` on an attached core; the fault (if any) is already armed on the disk.
+fn drive(disk: &Disk, mut sim: WSim<Disk>, ops: &[Op], fault_at: Option<u64>, k0: u64, local: &mut Local) -> Result<FaultRun, Failure> {
     let mut unflushed = 0u32;
     let mut reopen_with_unflushed = false;
     for (ci, op) in ops.iter().enumerate() {
@@ -72,7 +78,7 @@ fn run_once(ops: &[Op], fault_at: Option<u64>, local: &mut Local) -> Result<Faul
             sim.core = None;
             // (2) reopen fault-free: before-or-after
             disk.set_fault(-1);
-            let mut core = match hc::open(&disk) {
+            let mut core = match hc::open(disk) {
                 Ok(Ok(c)) => c,
                 Ok(Err(e)) => {
                     return Err(Failure::new(format!("reopen-after-fault-error:{}", err_kind(&e)), format!("{what}: reopening the storage afterwards failed: {e}")))
@@ -94,7 +100,7 @@ fn run_once(ops: &[Op], fault_at: Option<u64>, local: &mut Local) -> Result<Faul
                 }
             };
             // (3) still usable
-            let mut s2 = WSim::attach(&disk, core, model, ObsPolicy::Windowed);
+            let mut s2 = WSim::attach(disk, core, model, ObsPolicy::Windowed);
             for sop in writer_suffix() {
                 s2.apply(&sop).map_err(|f| Failure::new(format!("after-fault:{}", f.kind), format!("{what}: usability suffix: {}", f.detail)))?;
             }
@@ -116,6 +122,212 @@ fn run_once(ops: &[Op], fault_at: Option<u64>, local: &mut Local) -> Result<Faul
     Ok(FaultRun { total_ops: disk.ops(), k0 })
 }
 
+
+/// A history, cut short by a crash, then faults at every storage operation of: opening the crashed
+/// storage, and the calls in `follow`.
+#[derive(Clone, Debug, Serialize, Deserialize)]
+pub struct AfterCrashCase {
+    pub ops: Vec<Op>,
+    /// crash after journal prefix k0 + sel(cut, journal length - k0)
+    pub cut: u16,
+    /// 0: clean cut; otherwise the next write is torn after sel(torn, its length) bytes
+    pub torn: u16,
+    pub follow: Vec<Op>,
+}
+
+pub fn after_crash_strategy() -> impl Strategy<Value = AfterCrashCase> {
+    let follow = prop_oneof![
+        Just(vec![]),
+        small_blk_strategy().prop_map(|b| vec![Op::Append(b)]),
+        (small_blk_strategy(), clear_strategy()).prop_map(|(b, c)| vec![Op::Append(b), c, Op::Reopen]),
+    ];
+    (fault_history_strategy(12), any::<u16>(), prop_oneof![3 => Just(0u16), 2 => any::<u16>()], follow)
+        .prop_map(|(ops, cut, torn, follow)| AfterCrashCase { ops, cut, torn, follow })
+}
+
+/// Open crashed storage with a fault armed and continue with `follow`.
+fn run_after_crash_once(files: &crate::backend::Files, model: &ListModel, follow: &[Op], fault_at: Option<u64>, local: &mut Local) -> Result<FaultRun, Failure> {
+    let disk = Disk::from_files(files.clone());
+    disk.0.journaling.store(true, std::sync::atomic::Ordering::SeqCst);
+    let k0 = disk.ops();
+    if let Some(k) = fault_at {
+        disk.set_fault(k as i64);
+    }
+    let opened = hc::open(&disk);
+    if disk.fault_hit() {
+        let kind = disk.0.fault_kind.lock().unwrap().clone().unwrap_or_default();
+        let what = format!("injected I/O error on storage operation {} ({kind}) while opening the storage after a crash", fault_at.unwrap());
+        match opened {
+            Ok(Err(_)) => {}
+            Ok(Ok(_)) => return Err(Failure::new(format!("fault-swallowed:{}", kind.split(' ').next().unwrap_or("")), format!("{what}: the open succeeded instead of returning an error"))),
+            Err(p) => return Err(panic_failure(&what, &p)),
+        }
+        local.class(&format!("fault_on_open_after_crash:{}", kind.split(' ').next().unwrap_or("")));
+        if kind.starts_with("write") || kind.starts_with("truncate") || kind.starts_with("del") {
+            local.nontrivial(&(fault_at, follow.len(), files.iter().map(|f| f.len()).collect::<Vec<_>>()));
+            local.class("fault_on_a_write_made_by_the_recovering_open");
+        }
+        disk.set_fault(-1);
+        let mut core = match hc::open(&disk) {
+            Ok(Ok(c)) => c,
+            Ok(Err(e)) => return Err(Failure::new(format!("reopen-after-fault-error:{}", err_kind(&e)), format!("{what}: reopening the storage afterwards failed: {e}"))),
+            Err(p) => return Err(panic_failure(&format!("{what}: reopening afterwards"), &p)),
+        };
+        let obs = hc::observe(&mut core, model.len() + 3, false).map_err(|p| panic_failure(&format!("{what}: observing after reopen"), &p))?;
+        if let Some(d) = obs_vs_model(&obs, model, false) {
+            return Err(Failure::new("after-fault-neither-before-nor-after", format!("{what}: after reopening, the state is not the recovered one: {d}")));
+        }
+        let mut s2 = WSim::attach(&disk, core, model.clone(), ObsPolicy::Windowed);
+        for sop in writer_suffix() {
+            s2.apply(&sop).map_err(|f| Failure::new(format!("after-fault:{}", f.kind), format!("{what}: usability suffix: {}", f.detail)))?;
+        }
+        return Ok(FaultRun { total_ops: disk.ops(), k0 });
+    }
+    let core = match opened {
+        Ok(Ok(c)) => c,
+        Ok(Err(e)) => return Err(Failure::new(format!("recovery-open-error:{}", err_kind(&e)), format!("opening the storage after the crash failed: {e}"))),
+        Err(p) => return Err(panic_failure("opening the storage after the crash", &p)),
+    };
+    let sim = WSim::attach(&disk, core, model.clone(), ObsPolicy::Windowed);
+    drive(&disk, sim, follow, fault_at, k0, local)
+}
+
+pub fn test_after_crash(c: &AfterCrashCase, local: &mut Local) -> Check {
+    let rec = crate::crash::record(&c.ops)?;
+    local.evals = local.evals.saturating_sub(1);
+    let n = rec.journal.len();
+    if n <= rec.k0 {
+        local.class("after_crash:history_without_writes");
+        return Ok(());
+    }
+    let k = rec.k0 + sel(c.cut, (n - rec.k0) as u64) as usize;
+    let mut files = crate::backend::empty_files();
+    for jop in &rec.journal[..k] {
+        crate::backend::apply(&mut files, jop);
+    }
+    if c.torn != 0 {
+        if let crate::backend::JOp::Write { data, .. } = &rec.journal[k] {
+            if data.len() > 1 {
+                let cut = 1 + sel(c.torn, data.len() as u64 - 1) as usize;
+                crate::backend::apply_torn(&mut files, &rec.journal[k], cut);
+                local.class("after_crash:torn_write");
+            }
+        }
+    }
+    // which state the crash left (C02/C07 decide whether that is allowed; here it is only the starting point)
+    let cands: Vec<&ListModel> = match rec.calls.iter().find(|r| r.b <= k && k < r.e) {
+        Some(r) => vec![&rec.models[r.before], &rec.models[r.after]],
+        None => return Ok(()),
+    };
+    let probe = Disk::from_files(files.clone());
+    let mut core = match hc::open(&probe) {
+        Ok(Ok(c)) => c,
+        _ => {
+            local.class("after_crash:unrecoverable_start_skipped");
+            return Ok(());
+        }
+    };
+    let upto = cands.iter().map(|m| m.len()).max().unwrap_or(0) + 3;
+    let obs = hc::observe(&mut core, upto, false).map_err(|p| panic_failure("observing the crashed storage", &p))?;
+    let Some(model) = cands.iter().find(|m| obs_vs_model(&obs, m, false).is_none()) else {
+        local.class("after_crash:unexplained_start_skipped");
+        return Ok(());
+    };
+    drop(core);
+    let model: ListModel = (*model).clone();
+    let oplog_before = files[crate::backend::OPLOG].len();
+    if probe.file_len(crate::backend::OPLOG) != oplog_before {
+        local.class("after_crash:open_rewrites_the_oplog");
+    }
+    let dry = run_after_crash_once(&files, &model, &c.follow, None, local)?;
+    local.class("after_crash:histories");
+    for kf in dry.k0..dry.total_ops {
+        local.evals += 1;
+        local.class("after_crash:fault_runs");
+        run_after_crash_once(&files, &model, &c.follow, Some(kf), local)?;
+    }
+    Ok(())
+}
+
+/// Re-creating a core over existing storage (`overwrite = true`) with a fault at every storage
+/// operation of that call: the call fails; repeating it without a fault gives a fresh empty core.
+#[derive(Clone, Debug, Serialize, Deserialize)]
+pub struct OverwriteCase {
+    pub ops: Vec<Op>,
+    pub follow: Vec<Op>,
+}
+
+pub fn overwrite_strategy() -> impl Strategy<Value = OverwriteCase> {
+    (fault_history_strategy(10), prop::collection::vec(prop_oneof![small_blk_strategy().prop_map(Op::Append), clear_strategy(), Just(Op::Reopen)], 1..4))
+        .prop_map(|(ops, follow)| OverwriteCase { ops, follow })
+}
+
+pub fn test_overwrite(c: &OverwriteCase, local: &mut Local) -> Check {
+    let base = Disk::new();
+    let mut sim = WSim::create(&base, ObsPolicy::Windowed)?;
+    for op in &c.ops {
+        sim.apply(op)?;
+    }
+    let old_len = sim.model.len();
+    drop(sim);
+    let files = base.snapshot();
+    local.evals = local.evals.saturating_sub(1);
+    let fresh_check = |disk: &Disk, core: hypercore::Hypercore, what: &str| -> Check {
+        let mut core = core;
+        let empty = ListModel::new();
+        let obs = hc::observe(&mut core, old_len + 3, false).map_err(|p| panic_failure(&format!("{what}: observing the re-created core"), &p))?;
+        if let Some(d) = obs_vs_model(&obs, &empty, true) {
+            return Err(Failure::new("overwrite-not-fresh", format!("{what}: the re-created core is not an empty core: {d}")));
+        }
+        let mut s2 = WSim::attach(disk, core, empty, ObsPolicy::Full);
+        s2.check_contig = true;
+        for op in &c.follow {
+            s2.apply(op).map_err(|f| Failure::new(format!("after-overwrite:{}", f.kind), format!("{what}: {}", f.detail)))?;
+        }
+        s2.apply(&Op::Reopen).map_err(|f| Failure::new(format!("after-overwrite:{}", f.kind), format!("{what}: {}", f.detail)))?;
+        Ok(())
+    };
+    // dry run
+    let d0 = Disk::from_files(files.clone());
+    let core = match hc::create_overwrite(&d0, hc::test_keypair()) {
+        Ok(Ok(c)) => c,
+        Ok(Err(e)) => return Err(Failure::new(format!("overwrite-error:{}", err_kind(&e)), format!("re-creating over existing storage failed: {e}"))),
+        Err(p) => return Err(panic_failure("re-creating over existing storage", &p)),
+    };
+    let total = d0.ops();
+    fresh_check(&d0, core, "overwrite without faults")?;
+    local.class("overwrite:histories");
+    for k in 0..total {
+        local.evals += 1;
+        let d = Disk::from_files(files.clone());
+        d.set_fault(k as i64);
+        let r = hc::create_overwrite(&d, hc::test_keypair());
+        if !d.fault_hit() {
+            continue;
+        }
+        let kind = d.0.fault_kind.lock().unwrap().clone().unwrap_or_default();
+        let what = format!("injected I/O error on storage operation {k} ({kind}) while re-creating a core over storage holding {old_len} blocks");
+        match r {
+            Ok(Err(_)) => {}
+            Ok(Ok(_)) => return Err(Failure::new(format!("fault-swallowed:{}", kind.split(' ').next().unwrap_or("")), format!("{what}: the call succeeded instead of returning an error"))),
+            Err(p) => return Err(panic_failure(&what, &p)),
+        }
+        local.class(&format!("overwrite:fault_on:{}", kind.split(' ').next().unwrap_or("")));
+        if old_len > 0 && d.muts() > 0 {
+            local.nontrivial(&(&c.ops, k));
+            local.class("overwrite:fault_after_the_wipe_started");
+        }
+        d.set_fault(-1);
+        let core = match hc::create_overwrite(&d, hc::test_keypair()) {
+            Ok(Ok(c)) => c,
+            Ok(Err(e)) => return Err(Failure::new(format!("overwrite-retry-error:{}", err_kind(&e)), format!("{what}: repeating the call without a fault failed: {e}"))),
+            Err(p) => return Err(panic_failure(&format!("{what}: repeating the call"), &p)),
+        };
+        fresh_check(&d, core, &format!("{what}, then the call repeated without a fault"))?;
+    }
+    Ok(())
+}
+
 pub fn test_history(ops: &[Op], local: &mut Local) -> Check {
     let dry = run_once(ops, None, local)?;
     local.class("histories");
@@ -134,8 +346,13 @@ pub fn run(ctx: &Ctx) {
          (reads and length queries included); then for EVERY k the history is re-run with operation k returning an I/O error once. \
          Oracle: the API call issuing operation k returns Err (no Ok, no panic, no hang); the instance is dropped; a fault-free reopen \
          succeeds and shows the model before or after that call with all earlier calls intact; the usability suffix passes. \
+         Two further stages: (faults-after-crash) the history is cut short at a generated journal prefix (optionally with the next \
+         write torn), and every storage operation of opening that crashed storage and of a few following calls is failed in turn, with the \
+         same oracle; (overwrite-under-faults) a core is re-created over the history's storage with overwrite = true, every storage \
+         operation of that call failed in turn: the call must fail, and repeating it without a fault must give an empty, usable core. \
          Non-trivial = fault after the call's first mutating storage operation (partially applied call), or on a read during a reopen \
-         that finds unflushed entries; distinct = (history, k).",
+         that finds unflushed entries, or on a write made by an open that recovers crashed storage, or after an overwrite started to wipe \
+         a non-empty core; distinct = (history, k).",
     );
     ctx.assume("the failing operation has no effect on the store; all other operations behave normally");
     let l = ctx.tier.pick(3u32, 4u32);
@@ -144,13 +361,23 @@ pub fn run(ctx: &Ctx) {
     ctx.extra("exhaustive_stage", json!({"alphabet": ALPHABET, "max_len": l, "sequences": n, "exhaustive": true}));
     random_stage(ctx, "random", ctx.tier.pick(600, 50_000), || fault_history_strategy(20), |ops: &Vec<Op>, local| test_history(ops, local));
     crate::props::repl_crash::run_replica_fault_stage(ctx, ctx.tier.pick(200, 16_000));
+    random_stage(ctx, "faults-after-crash", ctx.tier.pick(1_500, 40_000), after_crash_strategy, |c: &AfterCrashCase, local| test_after_crash(c, local));
+    random_stage(ctx, "overwrite-under-faults", ctx.tier.pick(500, 10_000), overwrite_strategy, |c: &OverwriteCase, local| test_overwrite(c, local));
 }
 
 pub fn replay(case: &Value) -> Check {
     if case.get("session").is_some() {
         return crate::props::repl_crash::replay_fault(case);
     }
-    let ops: Vec<Op> = serde_json::from_value(case.clone()).map_err(|e| Failure::new("bad-replay", e.to_string()))?;
     let mut l = Local::default();
+    if case.get("cut").is_some() {
+        let c: AfterCrashCase = serde_json::from_value(case.clone()).map_err(|e| Failure::new("bad-replay", e.to_string()))?;
+        return test_after_crash(&c, &mut l);
+    }
+    if case.get("follow").is_some() {
+        let c: OverwriteCase = serde_json::from_value(case.clone()).map_err(|e| Failure::new("bad-replay", e.to_string()))?;
+        return test_overwrite(&c, &mut l);
+    }
+    let ops: Vec<Op> = serde_json::from_value(case.clone()).map_err(|e| Failure::new("bad-replay", e.to_string()))?;
     test_history(&ops, &mut l)
 }
